@@ -17,8 +17,25 @@ def rand_json(rng, depth=0):
     return {rng.choice(keys): rand_json(rng, depth + 1) for _ in range(rng.randrange(5))}
 
 
-def dispatch_cases(rng, n_extra):
+def string_boundary_payloads(rng):
+    """structured pre-auth packets (handshake, tunnel open) whose string fields are long and end in multi-byte characters
+    around the lengths at which code tends to truncate for logs or buffers"""
     out = []
+    keys = ["tunnel_id", "mapping_id", "secret_key", "token", "version", "protocol", "connection_type", "node_id", "target_host",
+            "challenge_response", "resume_token"]
+    vals = ["a" * L + t for L in list(range(60, 68)) + [15, 16, 31, 32, 127, 128, 255, 256, 1023, 1024] for t in ("\u00e9", "\u4e2d", "\U0001F600", "\u00e9b")]
+    vals += ["\u00e9" * 40, "\u4e2d" * 30, "a" * 5000]
+    for ty in (0x20, 0x01):
+        for k in keys:
+            for v in (vals if k in ("tunnel_id", "mapping_id", "secret_key", "token") else rng.sample(vals, 14)):
+                body = {"client_id": 7, "tunnel_id": "t", "mapping_id": "m"}
+                body[k] = v
+                out.append({"mode": "dispatch", "ty": ty, "payload": json.dumps(body, ensure_ascii=False).encode().hex()})
+    return out
+
+
+def dispatch_cases(rng, n_extra):
+    out = string_boundary_payloads(rng)
     payloads = [b"", b"{}", b"null", b"[]", b"\xff\xfe\x00", b'{"client_id":"abc"}', b'{"client_id":-1,"connection_type":"tunnel"}',
                 b'{"tunnel_id":"t","mapping_id":"m","secret_key":"s"}', b"{" * 200, b'{"client_id":99999999999999999999999}']
     for ty in range(256):
@@ -50,7 +67,7 @@ def stream_cases(ctx, n_seq, per):
     binary01 = vlib.build_harness("C01")
     pk = c01.gen_cases(ctx, n_seq, 0)[::6]
     outs = vlib.run_harness(binary01, pk)
-    wires = [o["wire"] for o in outs if len(o["wire"]) < 6000]
+    wires = [o["wire"] for o in outs if o.get("wire") and len(o["wire"]) < 6000]   # (a case on which the writer/reader panicked has no wire)
     raw = c01.raw_mutations(ctx, wires, per)
     # every truncation point of a few valid streams
     for w in wires[:6]:
